@@ -108,30 +108,35 @@ def validated_callees():
 
 
 class ValidatedOracle(Oracle):
-    quick_cases = 4000
-    bound = "Text/Integer/Choice fields x empty allowed or not x length {none, 2, 1...3} x allowed characters {none, a-z+blank+digits} x formats {delimited, fixed(width 3)} x cells up to length 4 over {a, 1, blank, #}"
+    quick_cases = 30000
+    bound = "Text/Integer/Choice/Decimal fields (allowed characters declared before or after the field) x empty allowed or not x length {none, 2, 1...3} x allowed characters {none, a-z+blank+digits} x formats {delimited, fixed(width 3)} x cells up to length 4 over {a, 1, blank, #}"
     def cases(self, ctx):
         cells = [""] + ["".join(p) for n in (1, 2, 3, 4) for p in itertools.product("a1 #", repeat=n)] + ["\ta", "a\t", "\t", "\t  ", " \t1", "a\tb"]
         for fmt in ("delimited", "fixed"):
-            for ftype in ("Text", "Integer", "Choice"):
+            for ftype in ("Text", "Integer", "Choice", "Decimal"):
                 for empty in (False, True):
                     for length in (["3"] if fmt == "fixed" else ["", "2", "1...3"]):
-                        for ac in (None, "32, 48...57, 97...122"):
+                        for ac in (None, "32, 48...57, 97...122", "late:32, 48...57, 97...122"):
                             for cell in (cells[::3] + cells[-6:]) if not ctx.thorough else cells:
+                                if ftype == "Decimal" and (" " in cell.strip(" ") or "\t" in cell or (fmt != "fixed" and cell != cell.strip())): continue      # blanks inside / around a number: Python's Decimal() decides, not the statement
                                 yield (fmt, ftype, empty, length, ac, cell)
     def check(self, case):
         from cutplace import data, fields, errors, ranges
         fmt, ftype, empty, length, ac, cell = case
         df = data.DataFormat(fmt)
-        if ac: df.set_property("allowed_characters", ac)
-        df.validate()
-        rule = {"Text": "", "Integer": "0...999", "Choice": "a, aa, a1"}[ftype]
+        late = bool(ac) and ac.startswith("late:")
+        if late: ac = ac[5:]
+        if ac and not late: df.set_property("allowed_characters", ac)
+        if not late: df.validate()
+        rule = {"Text": "", "Integer": "0...999", "Choice": "a, aa, a1", "Decimal": "0...999"}[ftype]
         calls = []
         cls = getattr(fields, ftype + "FieldFormat")
         try:
             f = cls("x", empty, length, rule, df)
         except errors.InterfaceError:
             return None     # declaration refused (length inconsistent with the rule): not a C03 case
+        if late:            # a property row may follow the field rows of a CID: the field must see it all the same
+            df.set_property("allowed_characters", ac); df.validate()
         orig = f.validated_value
         def spy(v):
             calls.append(v); return orig(v)
@@ -149,6 +154,11 @@ class ValidatedOracle(Oracle):
         def rule_ok(v):
             if ftype == "Text": return True
             if ftype == "Choice": return v in ("a", "aa", "a1")
+            if ftype == "Decimal":
+                import decimal
+                try: d = decimal.Decimal(v)
+                except decimal.InvalidOperation: return False
+                return d.is_finite() and 0 <= d <= 999
             try: return 0 <= int(v) <= 999
             except ValueError: return False
         if bad: exp = "reject"; exp_calls = []
@@ -159,7 +169,8 @@ class ValidatedOracle(Oracle):
         else: exp = "accept" if rule_ok(eff) else "reject"; exp_calls = [eff]
         if obs != exp: return {"expected": exp, "observed": obs}
         if calls != exp_calls: return {"expected": "validated_value calls %r" % exp_calls, "observed": "calls %r" % calls}
-        if obs == "accept" and blank and res != f.empty_value: return {"expected": "empty value %r" % (f.empty_value,), "observed": repr(res)}
+        type_empty = None if ftype in ("Integer", "Decimal") else ""
+        if obs == "accept" and blank and not (res is None if type_empty is None else res == ""): return {"expected": "the type's empty value %r" % (type_empty,), "observed": repr(res)}
         return None
     def describe(self, c):
         return {"format": c[0], "type": c[1], "allowed_to_be_empty": c[2], "length": c[3], "allowed_characters": c[4], "cell": c[5], "call": "<type>FieldFormat(...).validated(cell)"}
@@ -301,3 +312,29 @@ def unit_field_name_index():
                 expect=["return", "InterfaceError"], raises_only_props=["C09", "C10"])
         return {"contract": c, "callees": {"_tools.human_readable_list": ModelContract(m_opaque_str)}, "assumptions": ["list.index(x) is the first position holding x, ValueError if there is none (A-ITER)"]}
     return ProofUnit("fields.field_name_index", "field_name_index: first position of the name among the available names; InterfaceError iff absent", ["C05", "C09", "C10"], make, None)
+
+
+def unit_set_example():
+    def setup(ex, st):
+        self = Ref("TextFieldFormat"); st.heap[self.oid] = {"_example": None}
+        ex_ = fresh(Opt(STR), "new_example")[0]
+        st.frames[-1].env.update({"self": self, "new_example": ex_})
+        st.ghost.update({"this": self, "example": ex_, "validated_calls": 0, "refused": False})
+    def m_validated(ex, st, recv, args, kw):
+        ex.obligations.append(Obligation("the-example-is-checked-by-validated()-(empty-length-character-guards-and-the-rule)-of-the-field-itself", st.pc,
+                                         z3.And(z3.BoolVal(recv is st.ghost["this"]), lift_to(Opt(STR), args[0]) == G(st, "example")), "protocol", props=["C09"]))
+        st.ghost["validated_calls"] = Sym(INT, G(st, "validated_calls") + 1)
+        sb = st.copy(); sb.ghost["refused"] = True; yield from raise_new(ex, sb, "FieldValueError")
+        yield st, fresh(STR, "v")[0]
+    def m_forbidden(ex, st, recv, args, kw):
+        ex.obligations.append(Obligation("the-example-is-not-checked-by-the-rule-alone", st.pc, z3.BoolVal(False), "protocol", props=["C09"])); yield st, None
+    OS = sort_of(Opt(STR))
+    def make(ctx):
+        c = Contract("fields.AbstractFieldFormat._set_example", setup,
+                returns=[Clause(lambda ex, st: Sym(BOOL, z3.And(G(st, "validated_calls") == z3.If(OS.is_none(G(st, "example")), 0, 1), lift_to(Opt(STR), st.heap[st.ghost["this"].oid]["_example"]) == G(st, "example"))),
+                                "an-example-is-stored-only-after-the-field's-own-validated()-accepted-it-(None-is-stored-unchecked)", props=["C09"])],
+                raises={"FieldValueError": [Clause("refused and this._example is None", "a-refused-example-is-not-stored", props=["C09"])]},
+                expect=["return", "FieldValueError"], raises_only_props=["C09", "C10"])
+        return {"contract": c, "callees": {"ref:TextFieldFormat.validated": m_validated, "ref:TextFieldFormat.validated_value": m_forbidden, "ref:TextFieldFormat.validate_length": m_forbidden},
+                "assumptions": ["validated() is used through its verified contract (fields.AbstractFieldFormat.validated)"]}
+    return ProofUnit("fields.AbstractFieldFormat._set_example", "example setter: the example must pass the field's own validated() (all guards, then the rule)", ["C09", "C10"], make, None)
